@@ -59,8 +59,9 @@ def _tokens(text):
 def check_and_dump_auth(cfg, workers):
     """Exhaustive check of Auth.tla with `cfg` (its invariants must hold: a
     violation of the *model* is a machinery error) and, from the same run, the
-    dump of every state = every case.
-    -> (TlcResult, [(case tuple, pred pinned, pred repaired)])"""
+    dump of every state = every case (one check) and every two-check history.
+    -> (TlcResult, [(case tuple, pred pinned, pred repaired)],
+                   [(case tuple, domain of the second check, pred pinned, pred repaired)])"""
     wd = tlc.workdir('c20dump')
     try:
         res = tlc.run_tlc(SPEC, 'Auth', cfg, workers=workers, coverage=True,
@@ -68,6 +69,7 @@ def check_and_dump_auth(cfg, workers):
         if res.violated:
             raise tlc.MachineryError('model %s/Auth (%s) violates %s:\n%s' % (SPEC, cfg, res.violated, res.out[-3000:]))
         cases = []
+        twos = []
         ninit = 0
         with open(os.path.join(wd, 'st.dump')) as f:
             text = f.read()
@@ -87,13 +89,21 @@ def check_and_dump_auth(cfg, workers):
         p = _tokens(parts['pred'])
         if len(c) != 14 or len(p) != 6:
             raise tlc.MachineryError('cannot read dumped Auth state: %r' % block[:300])
-        cases.append((tuple(c), tuple(p[:3]), tuple(p[3:])))
+        d2 = _tokens(parts['d2'])[0]
+        if d2 == '':
+            cases.append((tuple(c), tuple(p[:3]), tuple(p[3:])))
+        else:
+            p2 = _tokens(parts['pred2'])
+            if len(p2) != 6:
+                raise tlc.MachineryError('cannot read dumped Auth state: %r' % block[:300])
+            twos.append((tuple(c), d2, tuple(p2[:3]), tuple(p2[3:])))
     del text
-    if len(cases) + ninit != res.distinct or not cases:
-        raise tlc.MachineryError('Auth dump: %d cases + %d initial states read, TLC reported %d states' % (len(cases), ninit, res.distinct))
-    if len(set(c for c, _, _ in cases)) != len(cases):
+    if len(cases) + len(twos) + ninit != res.distinct or not cases:
+        raise tlc.MachineryError('Auth dump: %d cases + %d two-check histories + %d initial states read, TLC reported %d states'
+                                 % (len(cases), len(twos), ninit, res.distinct))
+    if len(set(c for c, _, _ in cases)) != len(cases) or len(set((c, d) for c, d, _, _ in twos)) != len(twos):
         raise tlc.MachineryError('Auth dump: duplicate cases')
-    return res, cases
+    return res, cases, twos
 
 
 # ---------------------------------------------------------------------------
@@ -137,9 +147,10 @@ def replay_auth(pool, cases, chunk=1500):
     return results
 
 
-def auth_line(c, obs):
+def auth_line(c, obs, step=1, dom='same'):
     cfg, cred = _case_dicts(c)
-    ln = dict(cfg)
+    ln = {'step': step, 'dom': dom}
+    ln.update(cfg)
     ln.update(cred)
     ln['ret'], ln['login'], ln['auth'] = obs[0], obs[1], bool(obs[2])
     return ln
@@ -153,7 +164,8 @@ def auth_witness(ln):
         ok = ln['pres'] == 31 and ((ln['qop'] == 'none') == (ln['qf'] == 'neither')) and \
             (ln['qop'] == 'none' or ln['qf'] == 'both')
         parse = 'ok' if ok else 'incomplete'
-    return {'part': 'auth', 'api': ln['api'], 'enc': ln['enc'], 'sch': ln['sch'], 'form': ln['form'],
+    return {'part': 'auth', 'step': ln['step'], 'dom': ln['dom'],
+            'api': ln['api'], 'enc': ln['enc'], 'sch': ln['sch'], 'form': ln['form'],
             'user': ln['user'], 'sec': ln['sec'], 'realm': ln['realm'], 'hm': ln['hm'], 'parse': parse,
             'ret': ln['ret'], 'login': ln['login']}
 
@@ -287,8 +299,12 @@ def run_replay(path):
         c = tuple(d['case'])
         cfg, cred = _case_dicts(c)
         print('Authorization: %r' % R.authorization(cfg, cred))
-        obs = _auth_worker([c])[0]
-        lines = [auth_line(c, obs)]
+        if d.get('dom'):
+            o1, o2 = X.run_auth_fn2(cfg, cred, d['dom'])
+            print('second check on the same request object, domain %r' % d['dom'])
+            lines = [auth_line(c, o1), auth_line(c, o2, 2, d['dom'])]
+        else:
+            lines = [auth_line(c, _auth_worker([c])[0])]
         mod = 'AuthTrace'
     elif part == 'sessions':
         lines = run_session_script(d['script'])
@@ -339,6 +355,7 @@ def _run(ctx, quick, rnd, pool, ex, X, R):
     for name, mc in sweeps:
         jobs['auth_' + name] = ex.submit(check_and_dump_auth, mc, W)
     jobs['auth_pinned'] = ex.submit(tlc.run_tlc, SPEC, 'Auth', 'MC_Auth_pinned.cfg', workers=W)
+    jobs['auth_reuse'] = ex.submit(tlc.run_tlc, SPEC, 'Auth', 'MC_Auth_reuse.cfg', workers=W)
     # (no -coverage here: it slows this model down by an order of magnitude; vacuity of the
     # histories is checked on the dumped histories below)
     jobs['sess_mc'] = ex.submit(tlc.model_check, SPEC, 'Sessions', 'MC_Sessions.cfg' if quick else 'MC_Sessions_thorough.cfg',
@@ -401,52 +418,73 @@ def _run(ctx, quick, rnd, pool, ex, X, R):
     pinned = jobs['auth_pinned'].result()
     if not pinned.violated:
         raise tlc.MachineryError('the pinned variant of Auth.tla no longer violates C20: the model lost its teeth')
-    all_lines = []       # (case tuple, line)
-    n_auth_cases = 0
+    if not jobs['auth_reuse'].result().violated:
+        raise tlc.MachineryError('the "reuse" variant of Auth.tla (a second check trusts request.login) no longer violates C20')
+    all_traces = []      # (case tuple, domain of the second check or None, lines)
+    n_auth_cases = n_two = 0
     n_match_pinned = n_match_fixed = 0
+
+    def compare(c, dom, o, pp, pf):
+        nonlocal n_match_pinned, n_match_fixed
+        if o == pp:
+            n_match_pinned += 1
+        if o == pf:
+            n_match_fixed += 1
+        if o != pp and o != pf:
+            ctx.note_drift('auth case %s%s decided %s; the model says %s (pinned algorithm) / %s (repaired)'
+                           % (list(c), '' if dom is None else ' then a second check for domain %r' % dom, list(o), list(pp), list(pf)))
+
     for name, mc in sweeps:
-        mcres, cases = jobs['auth_' + name].result()
-        for act in ('CaseNone', 'CaseNoSpace', 'CaseUnknown', 'CaseBasic', 'CaseDigest'):
+        mcres, cases, twos = jobs['auth_' + name].result()
+        acts = ['CaseNone', 'CaseNoSpace', 'CaseUnknown', 'CaseBasic', 'CaseDigest']
+        if name != 'stack':
+            acts.append('Recheck')      # the stack sweep has no function-level api: no second check there
+        for act in acts:
             if mcres.coverage.get(act, (0, 0))[1] == 0:
                 raise tlc.MachineryError('vacuous model: action %s of Auth.tla never taken (%s)' % (act, mc))
         states += mcres.distinct
         transitions += mcres.generated
         n_auth_cases += len(cases)
+        n_two += len(twos)
         mark('auth_tlc_' + name)
         results = replay_auth(pool, cases)
-        mark('auth_replay_' + name)
         for (c, pp, pf), obs in zip(cases, results):
             ln = auth_line(c, obs)
-            all_lines.append((c, ln))
-            o = (ln['ret'], ln['login'], ln['auth'])
-            if o == pp:
-                n_match_pinned += 1
-            if o == pf:
-                n_match_fixed += 1
-            if o != pp and o != pf:
-                ctx.note_drift('auth case %s decided %s; the model says %s (pinned algorithm) / %s (repaired)' % (list(c), list(o), list(pp), list(pf)))
-        del cases, results
-    a_verdicts, a_stats = tlc.validate_traces(SPEC, 'AuthTrace', 'AuthTrace.cfg', [[ln] for _, ln in all_lines],
+            all_traces.append((c, None, [ln]))
+            compare(c, None, (ln['ret'], ln['login'], ln['auth']), pp, pf)
+        # two consecutive checks on one request object
+        for c, dom, pp2, pf2 in twos:
+            cfg, cred = _case_dicts(c)
+            o1, o2 = X.run_auth_fn2(cfg, cred, dom)
+            l1, l2 = auth_line(c, o1), auth_line(c, o2, 2, dom)
+            all_traces.append((c, dom, [l1, l2]))
+            compare(c, dom, (l2['ret'], l2['login'], l2['auth']), pp2, pf2)
+        mark('auth_replay_' + name)
+        del cases, results, twos
+    a_verdicts, a_stats = tlc.validate_traces(SPEC, 'AuthTrace', 'AuthTrace.cfg', [t[2] for t in all_traces],
                                               shards=6 if quick else 16, timeout=2400)
     mark('auth_validate')
     auth_ok = []
-    nsample = 0
-    for (c, ln), (clause, _) in zip(all_lines, a_verdicts):
+    sampled = set()
+    for (c, dom, lines), (clause, badline) in zip(all_traces, a_verdicts):
+        ln = lines[(badline or len(lines)) - 1]
         sample = None
-        if nsample < 2 and (clause or (ln['auth'] and ln['sch'] == 'digest')):
-            nsample += 1
+        kind = 'two' if dom is not None else 'one'
+        if kind not in sampled and (clause or (ln['auth'] and ln['sch'] == 'digest') or (dom not in (None, 'same') and lines[0]['auth'])):
+            sampled.add(kind)
             cfg, cred = _case_dicts(c)
-            sample = {'part': 'auth', 'case': list(c), 'authorization': R.authorization(cfg, cred), 'line': ln,
-                      'verdict': clause or 'accepted'}
-        ctx.count_case(['auth', c], ln['sch'] != 'none', sample=sample)
+            sample = {'part': 'auth', 'case': list(c), 'second_check_domain': dom, 'authorization': R.authorization(cfg, cred),
+                      'trace': lines, 'verdict': clause or 'accepted'}
+        ctx.count_case(['auth', c, dom], ln['sch'] != 'none', sample=sample)
         if clause:
             cfg, cred = _case_dicts(c)
-            ctx.violation(clause, auth_witness(ln), {'part': 'auth', 'case': list(c),
-                                                     'authorization': R.authorization(cfg, cred), 'line': ln})
+            ctx.violation(clause, auth_witness(ln), {'part': 'auth', 'case': list(c), 'dom': dom,
+                                                     'authorization': R.authorization(cfg, cred), 'trace': lines, 'line': badline})
         else:
-            auth_ok.append(ln)
+            auth_ok.extend(lines)
     mark('auth_verdicts')
     cov['auth_cases'] = n_auth_cases
+    cov['auth_two_check_histories'] = n_two
     cov['auth_decisions_as_pinned_model'] = n_match_pinned
     cov['auth_decisions_as_repaired_model'] = n_match_fixed
 
@@ -552,7 +590,7 @@ def _run(ctx, quick, rnd, pool, ex, X, R):
     mark('selftest')
     cov['phase_s'] = phase
 
-    ntraces = len(all_lines) + len(straces) + len(vh_lines)
+    ntraces = len(all_traces) + len(straces) + len(vh_lines)
     cov.update({
         'states': states, 'transitions': transitions,
         'traces_validated_against_impl': ntraces,
@@ -560,7 +598,9 @@ def _run(ctx, quick, rnd, pool, ex, X, R):
         'corrupted_traces_rejected': n_muts,
         'pinned_variant_counterexample': pinned.violated,
         'session_history_dump_states': sres.distinct,
-        'rule': 'auth: one case per (api, encrypt/table form, method) x credential class, every state TLC dumps for Auth.tla, '
+        'rule': 'auth: one case per (api, encrypt/table form, method) x credential class, every state TLC dumps for Auth.tla '
+                '(a state is one check on a fresh request object, or that check followed by a second one on the same object '
+                'for an independent realm/table domain), '
                 'realised as a real Authorization header and decided by the real code; non-trivial = carries an Authorization header. '
                 'sessions: every maximal environment history TLC dumps for Sessions.tla plus seeded random longer ones; '
                 'non-trivial = at least two requests and one cookie. vhost: every state of VHost.tla; non-trivial = a non-empty '
